@@ -2,7 +2,7 @@
 From Coq Require Import Reals List Lra.
 From AhrsLib Require Import Base Rot Atan2.
 From AhrsGen Require Import C10gen_R.
-From AhrsProps Require Import C10_defs C10_expdefs C10_euler C10_axang C10_explog C10_pow C10_state C10_seq C10_ctor_rpy C10_ctor_euler_zyx C10_ctor_xyz C10_mlog.
+From AhrsProps Require Import C10_defs C10_expdefs C10_euler C10_axang C10_explog C10_pow C10_state C10_seq C10_units C10_ctor_rpy C10_ctor_euler_zyx C10_ctor_xyz C10_mlog.
 Import ListNotations.
 Open Scope R_scope.
 
@@ -126,6 +126,25 @@ Proof.
   intros A B C HA HB HC. split; [exact (SO3_mul A B HA HB)|exact (seq3_SO3 A B C HA HB HC)].
 Qed.
 Print Assumptions C10_rot_seq_is_product.
+
+(* unit flags: the degrees / in_deg / rad=False path on an angle in degrees is the default path on rad t = t PI / 180 *)
+Theorem C10_degree_paths_agree : forall a b c w x y z,
+  C10_rotation_deg_y_R a = C10_rotation_y_R (rad a) /\
+  C10_rot_seq_deg_xz_R a b = C10_rot_seq_xz_R (rad a) (rad b) /\
+  C10_rot_seq_deg_zyx_R a b c = C10_rot_seq_zyx_R (rad a) (rad b) (rad c) /\
+  C10_rpy2q_deg_R a b c = C10_rpy2q_R (rad a) (rad b) (rad c) /\
+  C10_q2rpy_deg_R w x y z = scale_out (180 / PI) (C10_q2rpy_R w x y z) /\
+  C10_axang2quat_deg_R x y z a = C10_axang2quat_R x y z (rad a) /\
+  (forall t, rad t = t * PI / 180).
+Proof.
+  intros a b c w x y z.
+  split; [rewrite rotation_deg_y_spec, rotation_y_spec; reflexivity|].
+  split; [rewrite rot_seq_deg_xz_spec, rot_seq_xz_spec; reflexivity|].
+  split; [rewrite rot_seq_deg_zyx_spec, rot_seq_zyx_spec; reflexivity|].
+  split; [exact (rpy2q_deg_is_rpy2q_rad a b c)|]. split; [exact (q2rpy_deg_is_scaled w x y z)|].
+  split; [exact (axang2quat_deg_is_rad x y z a)|exact rad_is_pi_180].
+Qed.
+Print Assumptions C10_degree_paths_agree.
 
 (* keyword constructors: DCM(euler=('zyx',.)), DCM(x=,y=,z=), DCM(rpy=) pass the SO(3) gate and are these products.
    PARTIAL for DCM(rpy=): it is Rz(a0) Ry(a1) Rx(a2), i.e. the FIRST angle turns about z — the opposite naming to
